@@ -50,7 +50,15 @@ def int_division(prog):
     return any(isinstance(n, ast.BinOp) and isinstance(n.op, ast.Div) for n in ast.walk(_parse(prog.query)))
 
 
+def raw_object_output(prog):
+    "the query's final value is a data-model object (First() of an object sequence / identity Select)"
+    import re
+    q = prog.src or prog.query
+    return bool(re.search(r"\.First\(\)\)\s*$", q) or re.search(r"lambda (\w+): \1\)\s*$", q))
+
+
 PREDICATES = {
+    "raw_object_output": raw_object_output,
     "uses_minmax": uses_minmax,
     "range_with_computed_bound": range_with_computed_bound,
     "mod_present": mod_present,
